@@ -27,7 +27,8 @@ OWNED = [
 ]
 
 PROPS = {
-    "C01": dict(lemmas=["A-mod-of-multiple"], not_decided=["hull of stretched Blackman/Kaiser/Interpolated samples (bounded stand-in)"], assumptions=[]),
+    "C01": dict(lemmas=["A-mod-of-multiple"], not_decided=["hull of stretched Blackman/Kaiser/Interpolated samples (bounded stand-in)",
+                                                         "finiteness of samples: nan / inf do not exist under A-REAL; decided by the bounded stand-in only (non-finite pulses are generated)"], assumptions=[]),
     "C02": dict(lemmas=["A-mod-of-multiple"], not_decided=[], assumptions=["A-NOALIAS list-valued fields (.slots, .eom_blocks) are not aliased between objects"]),
     "C03": dict(lemmas=["L-first-retarget"], relations=["estimate-equals-actual"], not_decided=["fall time of a past pulse is taken in the other channel's current EOM mode or non-EOM mode, whichever is shorter (fall_min)"],
                 assumptions=["A-DET make_next_pulse_slot is a deterministic function of the values it reads (used only to turn equal call arguments into estimate == inserted delay)",
